@@ -22,7 +22,7 @@ func init() {
 			"distinct = hash of the reference bytes; non-trivial = body length > 0",
 		Assumptions: []string{"reference = refts/descriptors.go written from ISO 13818-1 2.6 and EN 300 468 6.2/6.4/Annex D, validated by 29 known-answer vectors in its unit test",
 			"models stay inside what the structs can represent (one ISO 639 entry, VBI services of unknown ids without lines, BCD digits valid, page ≤ 99, bitrate multiple of 50)",
-			"a zero-length descriptor has no typed part"},
+			"a zero-length descriptor has no typed part", "AC-3 descriptor: reserved_flags are written as ones by reference and library (EN 300 468 D.3 says they should be 0: a recommendation; pinned by the library's own test)", "teletext pages: the generators draw decimal digits; page bytes with a hex digit A-F are the known finding D43 (stage teletext-pages)"},
 		Shards: 32,
 		Run:    runC14,
 		Guards: func(m *mon.Merged, tier string) []string {
@@ -213,7 +213,58 @@ func checkDescWrite(c *mon.Ctx, stage string, idx int64, ds []*astits.Descriptor
 	}
 }
 
+// teletextPages: teletext_page_number is "an 8-bit field giving two 4-bit hex digits" (EN 300 468 6.2.43; the VBI teletext
+// descriptor has the same body). Whatever number the struct gives a page, two different page bytes are two different pages: they must
+// not decode to the same value, and a decoded descriptor written back must give the byte it came from. Every page byte is tried,
+// for both tags.
+func teletextPages(c *mon.Ctx) {
+	if !c.Mine("teletext-pages", 0) {
+		return
+	}
+	for _, tag := range []byte{0x56, 0x46} {
+		seen := map[string]int{}
+		for pb := 0; pb < 256; pb++ {
+			in := []byte{0xF0, 0x07, tag, 0x05, 'e', 'n', 'g', 0x11, byte(pb)}
+			var got []*astits.Descriptor
+			var gerr error
+			if p, v, st := mon.Guarded(func() { got, _, gerr = astits.VerifParseDescriptors(in) }); p {
+				c.Violate("C14/parse/panic:"+fmt.Sprintf("%02x", tag), "teletext-pages", int64(pb), fmt.Sprintf("%v\n%s", v, st), nil)
+				return
+			}
+			c.Count("teletext_page_bytes_decoded")
+			if gerr != nil || len(got) != 1 {
+				continue // refusing a page is not losing one
+			}
+			hex := func(b int) bool { return b>>4 > 9 || b&15 > 9 }
+			cls := func(bs ...int) string {
+				for _, b := range bs {
+					if hex(b) {
+						return "C14/parse/teletext-page-hex-digits-not-distinguished" // the known finding: only bytes with a digit A-F
+					}
+				}
+				return "C14/parse/teletext-page-decimal-digits-wrong"
+			}
+			key := mon.DumpString(got[0])
+			if prev, dup := seen[key]; dup {
+				c.Violate(cls(prev, pb), "teletext-pages", int64(pb), fmt.Sprintf("tag %#02x: page bytes %#02x and %#02x decode to the same descriptor", tag, prev, pb), map[string]any{"loop": mon.Hex(in, 16)})
+				continue
+			}
+			seen[key] = pb
+			var out []byte
+			var werr error
+			if p, v, st := mon.Guarded(func() { out, _, werr = astits.VerifWriteDescriptorsWithLength(got) }); p {
+				c.Violate("C14/write/panic:"+fmt.Sprintf("%02x", tag), "teletext-pages", int64(pb), fmt.Sprintf("%v\n%s", v, st), nil)
+				return
+			}
+			if werr == nil && !bytes.Equal(out, in) {
+				c.Violate(cls(pb), "teletext-pages", int64(pb), fmt.Sprintf("tag %#02x: page byte %#02x decoded and written back gives % x", tag, pb, out), map[string]any{"loop": mon.Hex(in, 16)})
+			}
+		}
+	}
+}
+
 func runC14(c *mon.Ctx) {
+	teletextPages(c)
 	tags := gen.TypedTags()
 	classes := append([]uint8{}, tags...)
 	classes = append(classes, 0x80, 0xC7, 0xFE, 0x02, 0x7E, 0xFF) // user-defined and unknown tags
